@@ -3,14 +3,14 @@ import json
 import os
 import vlib
 
-PROPS = ['Rangers.Props.C07', 'Rangers.Props.C07Rlp', 'Rangers.Props.C07Conv', 'Rangers.Props.C07Secp', 'Rangers.Props.C07Addr', 'Rangers.Props.C07Facts', 'Rangers.Props.C07Admit']
+PROPS = ['Rangers.Props.C07', 'Rangers.Props.C07Rlp', 'Rangers.Props.C07Conv', 'Rangers.Props.C07Secp', 'Rangers.Props.C07Addr', 'Rangers.Props.C07Fork', 'Rangers.Props.C07Oracle', 'Rangers.Props.C07Facts', 'Rangers.Props.C07Admit']
 DRIVERS = ['C07']
 META = dict(
     level='proof',
     technique='Lean 4 theorems about an executable model of VerifyTransaction (crypto primitives as parameters) '
               '+ differential correspondence against the real TxPool.VerifyTransaction / eth_tx code with crypto oracle fields',
     level_text='proof',
-    level_note='63 Lean theorems about the executable model of VerifyTransaction that the driver runs; crypto '
+    level_note='70 Lean theorems about the executable model of VerifyTransaction that the driver runs; crypto '
                'primitives are parameters (soundness ends in explicit collision / second-signature witnesses); '
                'two clauses are false of the code and proved partial with counterexamples (unprotected v=27/28 '
                'payloads, recovery-id alias of Sign) and recorded as known findings; one defect fixed '
@@ -64,8 +64,35 @@ def correspond(ctx):
     if c.get('unmodelled'):
         c['ok'] = False
         c.setdefault('errors', []).append('unexpected unmodelled lines')
+    st = c.get('stats') if isinstance(c.get('stats'), dict) else {}
+    # property-level facts the correspondence run establishes by itself
+    for v in st.get('hardening_violations') or []:
+        viol.append(dict(key=v['Key'] if 'Key' in v else v.get('key'), desc=v.get('Desc') or v.get('desc'),
+                         replay=v.get('Replay') or v.get('replay')))
+    for cls, w in (st.get('reference_disagreements') or {}).items():
+        viol.append(dict(key='reference-disagrees:' + cls,
+                         desc='the code under test disagrees with an independent reference (%s)' % cls, replay=dict(witness=w)))
+    # a well-formed honest input that BOTH sides reject is a broken tie, not agreement
+    gr = st.get('generator_results') or {}
+    for k, n in gr.items():
+        tag, _, res = k.partition('/')
+        honest = ('honest' in tag) and not tag.startswith('conv')
+        if honest and res != 'ok':
+            c['ok'] = False
+            c.setdefault('errors', []).append('honest generator %s answered %s (%d times) on both sides' % (tag, res, n))
+        if tag == 'conv-honest' and res != 'fields':
+            c['ok'] = False
+            c.setdefault('errors', []).append('conv-honest answered %s (%d times)' % (res, n))
     c['violations'] = viol
-    return [c]
+    out = [c]
+    if ctx.thorough():
+        # concurrency evidence under the race detector (evidence, not proof): the same harness,
+        # including its 8-goroutine phase, built with -race; a reported race fails the run
+        r = vlib.correspond(ctx, 'c07', 'C07', ['n=24'], timeout=1500, race=True)
+        r['name'] = 'verify-transaction-race-build'
+        r['violations'] = []
+        out.append(r)
+    return out
 
 
 def search(ctx, hints):
@@ -87,10 +114,19 @@ def search(ctx, hints):
     import shutil
     shutil.rmtree(cwd, ignore_errors=True)
     got = None
+    early = []
     for line in so.split('\n'):
         if line.startswith('SEARCH '):
             got = json.loads(line[7:])
+        elif line.startswith('VIOL '):
+            try:
+                early.append(json.loads(line[5:]))
+            except Exception:
+                pass
     if rc != 0 or got is None:
+        # keep what was found before the run was cut short
+        for v in early:
+            res['violations'].append(dict(key=v['key'], desc=v['desc'], replay=v['replay']))
         res['error'] = 'searcher exited %d: %s' % (rc, (se or so)[-1200:])
         return res
     res['evaluations'] = got['evaluations']
